@@ -25,6 +25,10 @@ package kcp
 
 import (
 	"bytes"
+	"encoding/json"
+	"os"
+	"os/exec"
+	"path/filepath"
 	"crypto/aes"
 	"crypto/cipher"
 	"crypto/sha1"
@@ -388,43 +392,63 @@ type frameCfg struct {
 	DupPct   int
 	Seed     uint64
 	MaxBytes int
+	MtuOps   bool // UDPSession.SetMtu with arbitrary values at random points of the traffic, both sides
 	Flood    bool // a burst of several thousand SendOOB calls in a tight loop in the middle of the transfer
 	Slow     bool // readers start late behind a 4-segment receive window: zero-window probes (WASK/WINS) on the wire
 }
 
 func (c frameCfg) String() string {
-	return fmt.Sprintf("id=%d cipher=%s fec=%d/%d mtu=%s pattern=%d oob=%d clients=%d loss=%d dup=%d slow=%v flood=%v seed=%d",
-		c.ID, frameCiphers()[c.Cipher].name, c.D, c.P, frameMtuNames[c.MtuKind], c.Pattern, c.OOBMode, c.Clients, c.LossPct, c.DupPct, c.Slow, c.Flood, c.Seed)
+	return fmt.Sprintf("id=%d cipher=%s fec=%d/%d mtu=%s pattern=%d oob=%d clients=%d loss=%d dup=%d slow=%v flood=%v mtuops=%v seed=%d",
+		c.ID, frameCiphers()[c.Cipher].name, c.D, c.P, frameMtuNames[c.MtuKind], c.Pattern, c.OOBMode, c.Clients, c.LossPct, c.DupPct, c.Slow, c.Flood, c.MtuOps, c.Seed)
 }
 
 type frameFinding struct {
-	key, what string
-	replay    any
+	Key, What string
+	Replay    any
 }
 
 type frameDirLog struct { // one sender session's datagrams, for the OCaml driver
-	header string
-	lines  []string
+	Header string
+	Lines  []string
 }
 
+// frameResult crosses a process boundary as JSON (every scenario runs in a child process)
 type frameResult struct {
-	cfg       frameCfg
-	findings  []frameFinding
-	dist      map[string]int
-	monitors  map[string]int
-	logs      []frameDirLog
-	retrans   int
-	parity    int
-	oobRecv   int
-	datagrams int
-	err       string // harness-level failure (not a property violation)
-	sample    string
+	Cfg       frameCfg
+	Findings  []frameFinding
+	Dist      map[string]int
+	Monitors  map[string]int
+	Logs      []frameDirLog
+	Retrans   int
+	Parity    int
+	OOBRecv   int
+	Datagrams int
+	MtuAccepted int
+	Err       string // harness-level failure (not a property violation)
+	Sample    string
 }
 
 func (r *frameResult) violate(key, what string, detail any) {
-	if len(r.findings) < 20 {
-		r.findings = append(r.findings, frameFinding{key, what, map[string]any{"scenario": r.cfg.String(), "cfg": r.cfg, "detail": detail}})
+	n := 0
+	for _, f := range r.Findings {
+		if f.Key == key {
+			n++
+		}
 	}
+	if n < 5 && len(r.Findings) < 40 {
+		r.Findings = append(r.Findings, frameFinding{key, what, map[string]any{"scenario": r.Cfg.String(), "cfg": r.Cfg, "detail": detail}})
+	}
+}
+
+// frameSafe runs one library call; a panic in it becomes a value instead of killing the run
+func frameSafe(f func()) (panicked string) {
+	defer func() {
+		if r := recover(); r != nil {
+			panicked = fmt.Sprint(r)
+		}
+	}()
+	f()
+	return ""
 }
 
 // one endpoint of one conversation
@@ -440,6 +464,137 @@ type frameSide struct {
 	oobGot   [][]byte
 	handler  bool
 	writeErr error
+
+	hub    *frameHub
+	res    *frameResult
+	resMu  *sync.Mutex
+	events []frameMtuEvent // every SetMtu call on this session, in order
+}
+
+// frameMtuEvent: one UDPSession.SetMtu call.  Datagrams captured before CapIndex were built
+// under the previous MTU; an accepted call is followed by a marker segment pushed through the
+// session's own post-processing queue (FIFO), so every datagram captured after the marker was
+// built after SetMtu returned and must honour the new value.
+type frameMtuEvent struct {
+	CapIndex int
+	Asked    int
+	Bound    int // min(Asked, 1500)
+	Accepted bool
+	Epoch    int
+}
+
+const frameMarkerTS = 0xC10A0000
+
+func (s *frameSide) violate(key, what string, detail any) {
+	s.resMu.Lock()
+	s.res.violate(key, what, detail)
+	s.resMu.Unlock()
+}
+
+// largest payload among the queued and in-flight segments (the core refuses an MTU they cannot honour)
+func frameLargestSeg(k *KCP) int {
+	max := 0
+	f := func(seg *segment) bool {
+		if len(seg.data) > max {
+			max = len(seg.data)
+		}
+		return true
+	}
+	k.snd_queue.ForEach(f)
+	k.snd_buf.ForEach(f)
+	return max
+}
+
+// setMtu: UDPSession.SetMtu under the monitors "accepted iff min(m,1500) - headerSize - AEAD
+// overhead passes the core's SetMtu; accepted => the core's mtu is that value; refused =>
+// nothing changes", plus the bookkeeping for the size monitor.
+func (s *frameSide) setMtu(m int) bool {
+	sess := s.sess
+	s.hub.mu.Lock()
+	capIndex := len(s.hub.caps)
+	s.hub.mu.Unlock()
+	ov := 0
+	if a, ok := sess.block.(*aeadCrypt); ok {
+		ov = a.Overhead()
+	}
+	bound := m
+	if bound > mtuLimit {
+		bound = mtuLimit
+	}
+	km := bound - sess.headerSize - ov
+	sess.mu.Lock()
+	oldMtu, oldMss, preLargest := int(sess.kcp.mtu), int(sess.kcp.mss), frameLargestSeg(sess.kcp)
+	sess.mu.Unlock()
+	var ok bool
+	detail := map[string]any{"asked": m, "headerSize": sess.headerSize, "aeadOverhead": ov, "coreMtuBefore": oldMtu}
+	if p := frameSafe(func() { ok = sess.SetMtu(m) }); p != "" {
+		s.violate("session-panic:SetMtu", fmt.Sprintf("%s: SetMtu(%d) panicked: %s", s.name, m, p), detail)
+		return false
+	}
+	sess.mu.Lock()
+	newMtu, newMss, postLargest := int(sess.kcp.mtu), int(sess.kcp.mss), frameLargestSeg(sess.kcp)
+	sess.mu.Unlock()
+	s.resMu.Lock()
+	s.res.Monitors["session-setmtu-rule"]++
+	s.res.Dist[fmt.Sprintf("setmtu-%s-%v", frameMtuClass(m, km), ok)]++
+	if ok {
+		s.res.MtuAccepted++
+	}
+	s.resMu.Unlock()
+	switch {
+	case ok && km <= IKCP_OVERHEAD:
+		s.violate("session-setmtu-rule", fmt.Sprintf("%s: SetMtu(%d) accepted although it leaves the core %d <= 24 bytes", s.name, m, km), detail)
+	case ok && postLargest > km-IKCP_OVERHEAD:
+		s.violate("session-setmtu-rule", fmt.Sprintf("%s: SetMtu(%d) accepted although a queued segment of %d bytes exceeds the new mss %d", s.name, m, postLargest, km-IKCP_OVERHEAD), detail)
+	case !ok && km > IKCP_OVERHEAD && preLargest <= km-IKCP_OVERHEAD:
+		s.violate("session-setmtu-rule", fmt.Sprintf("%s: SetMtu(%d) refused although the core mtu %d is in range and every queued segment (largest %d) fits", s.name, m, km, preLargest), detail)
+	case ok && (newMtu != km || newMss != km-IKCP_OVERHEAD):
+		s.violate("session-setmtu-rule", fmt.Sprintf("%s: SetMtu(%d) accepted but the core has mtu %d / mss %d instead of %d / %d", s.name, m, newMtu, newMss, km, km-IKCP_OVERHEAD), detail)
+	case !ok && (newMtu != oldMtu || newMss != oldMss):
+		s.violate("session-setmtu-rule", fmt.Sprintf("%s: SetMtu(%d) refused but the core mtu changed %d -> %d", s.name, m, oldMtu, newMtu), detail)
+	}
+	s.mu.Lock()
+	ev := frameMtuEvent{CapIndex: capIndex, Asked: m, Bound: bound, Accepted: ok, Epoch: len(s.events) + 1}
+	s.events = append(s.events, ev)
+	s.mu.Unlock()
+	if ok {
+		s.marker(ev.Epoch)
+	}
+	return ok
+}
+
+func frameMtuClass(m, km int) string {
+	switch {
+	case m <= 0:
+		return "nonpositive"
+	case km <= IKCP_OVERHEAD:
+		return "too-small"
+	case m > mtuLimit:
+		return "above-1500"
+	}
+	return "in-range"
+}
+
+// marker: a window-tell segment (what a genuine flush emits on request) with a recognisable ts,
+// pushed into the session's own post-processing queue behind everything built so far.
+func (s *frameSide) marker(epoch int) {
+	sess := s.sess
+	sess.mu.Lock()
+	seg := segment{conv: sess.kcp.conv, cmd: IKCP_CMD_WINS, wnd: sess.kcp.wnd_unused(), una: sess.kcp.rcv_nxt, ts: frameMarkerTS | uint32(epoch&0xffff)}
+	buf := defaultBufferPool.Get()[:IKCP_OVERHEAD+sess.headerSize]
+	seg.encode(buf[sess.headerSize:])
+	sess.mu.Unlock()
+	for try := 0; try < 2000; try++ {
+		select {
+		case sess.chPostProcessing <- sendRequest{buf, false}:
+			return
+		case <-sess.die:
+			return
+		default:
+			time.Sleep(time.Millisecond)
+		}
+	}
+	// never enqueued: the event stays pending, the monitor keeps allowing the older, larger bound
 }
 
 func (s *frameSide) onOOB(b []byte) {
@@ -523,7 +678,37 @@ func frameOOBPayload(rng *vrng, tag byte, idx, size int) []byte {
 }
 
 // writer: the chunks of the stream with OOB messages interleaved at random points
-func (s *frameSide) run(rng *vrng, oob, flood bool, res *frameResult, resMu *sync.Mutex, chunks []int, data []byte) {
+// frameMtuValue: growing, shrinking, boundary and out-of-range values
+func frameMtuValue(rng *vrng, sess *UDPSession) int {
+	ov := 0
+	if a, ok := sess.block.(*aeadCrypt); ok {
+		ov = a.Overhead()
+	}
+	least := IKCP_OVERHEAD + 1 + sess.headerSize + ov // the smallest value the session can accept
+	switch rng.intn(8) {
+	case 0:
+		return rng.pick(-1, 0, 1, 24, 25, least-1, least-2)
+	case 1:
+		return rng.pick(least, least+1, least+rng.intn(40))
+	case 2:
+		return rng.pick(1499, 1500, 1501, 1524, 2000, 65561, 1<<31)
+	case 3:
+		return rng.pick(576, 600, 1400)
+	case 4: // shrink relative to now
+		sess.mu.Lock()
+		cur := int(sess.kcp.mtu) + sess.headerSize + ov
+		sess.mu.Unlock()
+		return cur - 1 - rng.intn(cur/2+1)
+	case 5: // grow relative to now
+		sess.mu.Lock()
+		cur := int(sess.kcp.mtu) + sess.headerSize + ov
+		sess.mu.Unlock()
+		return cur + 1 + rng.intn(200)
+	}
+	return 1 + rng.intn(1600)
+}
+
+func (s *frameSide) run(rng *vrng, oob, flood, mtuOps bool, res *frameResult, resMu *sync.Mutex, chunks []int, data []byte) {
 	sess := s.sess
 	off := 0
 	idx := 0
@@ -533,17 +718,25 @@ func (s *frameSide) run(rng *vrng, oob, flood bool, res *frameResult, resMu *syn
 	}
 	sendOOB := func() {
 		max := sess.GetOOBMaxSize()
-		sizes := []int{0, 1, max - 1, max, max + 1, rng.intn(max + 1)}
+		sizes := []int{0, 1, max - 1, max, max + 1, max + 1 + rng.intn(4), rng.intn(max + 1)}
 		size := sizes[rng.intn(len(sizes))]
 		if size < 0 {
 			size = 0
 		}
 		p := frameOOBPayload(rng, s.tag, idx, size)
 		idx++
-		err := sess.SendOOB(p)
+		var err error
+		if pn := frameSafe(func() { err = sess.SendOOB(p) }); pn != "" {
+			sess.mu.Lock()
+			km := int(sess.kcp.mtu)
+			sess.mu.Unlock()
+			s.violate("oob-limit", fmt.Sprintf("%s: SendOOB(%d bytes) panicked (GetOOBMaxSize() = %d, core mtu %d, headerSize %d): %s", s.name, size, max, km, sess.headerSize, pn),
+				map[string]any{"payloadLen": size, "oobMax": max, "coreMtu": km, "headerSize": sess.headerSize})
+			return
+		}
 		resMu.Lock()
-		res.monitors["oob-limit"]++
-		res.dist[fmt.Sprintf("oob-size-%s", frameSizeClass(size, max))]++
+		res.Monitors["oob-limit"]++
+		res.Dist[fmt.Sprintf("oob-size-%s", frameSizeClass(size, max))]++
 		if size > max && err == nil {
 			res.violate("oob-limit", fmt.Sprintf("SendOOB accepted %d bytes although GetOOBMaxSize() = %d", size, max), hx(p))
 		}
@@ -562,7 +755,12 @@ func (s *frameSide) run(rng *vrng, oob, flood bool, res *frameResult, resMu *syn
 			var mine [][]byte
 			for k := 0; k < 5000; k++ {
 				p := frameOOBPayload(rng, s.tag, k, 2+rng.intn(10))
-				if sess.SendOOB(p) == nil {
+				var err error
+				if pn := frameSafe(func() { err = sess.SendOOB(p) }); pn != "" {
+					s.violate("oob-limit", fmt.Sprintf("%s: SendOOB(%d bytes) panicked during a burst: %s", s.name, len(p), pn), nil)
+					break
+				}
+				if err == nil {
 					mine = append(mine, p)
 				}
 			}
@@ -570,14 +768,23 @@ func (s *frameSide) run(rng *vrng, oob, flood bool, res *frameResult, resMu *syn
 			s.oobSent = append(s.oobSent, mine...)
 			s.mu.Unlock()
 			resMu.Lock()
-			res.dist["oob-flood-messages"] += len(mine)
+			res.Dist["oob-flood-messages"] += len(mine)
 			resMu.Unlock()
 		}
 		if oob && rng.chance(60) {
 			sendOOB()
 		}
-		if _, err := sess.Write(data[off : off+n]); err != nil {
-			s.writeErr = err
+		if mtuOps && rng.chance(35) {
+			s.setMtu(frameMtuValue(rng, sess))
+		}
+		var werr error
+		if pn := frameSafe(func() { _, werr = sess.Write(data[off : off+n]) }); pn != "" {
+			s.violate("session-panic:Write", fmt.Sprintf("%s: Write(%d bytes) panicked: %s", s.name, n, pn), map[string]any{"len": n})
+			s.writeErr = fmt.Errorf("panic: %s", pn)
+			return
+		}
+		if werr != nil {
+			s.writeErr = werr
 			return
 		}
 		off += n
@@ -622,7 +829,12 @@ func (s *frameSide) reader(want int, deadline time.Time, delay time.Duration, do
 		if got >= want {
 			return
 		}
-		n, err := s.sess.Read(buf)
+		var n int
+		var err error
+		if pn := frameSafe(func() { n, err = s.sess.Read(buf) }); pn != "" {
+			s.violate("session-panic:Read", fmt.Sprintf("%s: Read panicked: %s", s.name, pn), nil)
+			return
+		}
 		if n > 0 {
 			s.mu.Lock()
 			s.read = append(s.read, buf[:n]...)
@@ -637,7 +849,7 @@ func (s *frameSide) reader(want int, deadline time.Time, delay time.Duration, do
 // ---------------------------------------------------------------- one scenario on real sessions
 
 func frameRunScenario(cfg frameCfg) *frameResult {
-	res := &frameResult{cfg: cfg, dist: map[string]int{}, monitors: map[string]int{}}
+	res := &frameResult{Cfg: cfg, Dist: map[string]int{}, Monitors: map[string]int{}}
 	var resMu sync.Mutex
 	rng := newRng(cfg.Seed)
 	ciph := frameCiphers()[cfg.Cipher]
@@ -647,7 +859,7 @@ func frameRunScenario(cfg frameCfg) *frameResult {
 	srvEP := hub.endpoint("srv")
 	l, err := ServeConn(ciph.mk(key), cfg.D, cfg.P, srvEP)
 	if err != nil {
-		res.err = "ServeConn: " + err.Error()
+		res.Err = "ServeConn: " + err.Error()
 		return res
 	}
 	defer func() {
@@ -673,20 +885,22 @@ func frameRunScenario(cfg frameCfg) *frameResult {
 		convs[i] = uint32(rng.u64())
 		sess, err := NewConn3(convs[i], frameAddr("srv"), ciph.mk(key), cfg.D, cfg.P, ep)
 		if err != nil {
-			res.err = "NewConn3: " + err.Error()
+			res.Err = "NewConn3: " + err.Error()
 			return res
 		}
 		defer sess.Close()
 		// tx() uses WriteBatch only when the platform layer built a batch conn; for this conn it must not
 		if f := reflect.ValueOf(&sess.platform).Elem().FieldByName("batchConn"); f.IsValid() && !f.IsNil() {
-			res.err = "the session uses the WriteBatch path: datagrams would bypass the capture"
+			res.Err = "the session uses the WriteBatch path: datagrams would bypass the capture"
 			return res
 		}
+		c := &frameSide{name: fmt.Sprintf("cli%d", i), sess: sess, tag: byte(0x10 + i), hub: hub, res: res, resMu: &resMu}
+		clients[i] = c
 		if i == 0 {
 			switch cfg.MtuKind {
 			case 0:
 				m := 1
-				for !sess.SetMtu(m) && m < 200 {
+				for !c.setMtu(m) && m < 200 {
 					m++
 				}
 				mtu = m + rng.intn(16)
@@ -698,29 +912,31 @@ func frameRunScenario(cfg frameCfg) *frameResult {
 				mtu = 1500
 			}
 		}
-		if !sess.SetMtu(mtu) {
-			res.err = fmt.Sprintf("SetMtu(%d) refused", mtu)
+		if !c.setMtu(mtu) {
+			res.Err = fmt.Sprintf("SetMtu(%d) refused", mtu)
 			return res
 		}
 		sess.SetNoDelay(1, 10, 2, 1)
 		sess.SetWindowSize(256, rcvWnd)
-		clients[i] = &frameSide{name: fmt.Sprintf("cli%d", i), sess: sess, tag: byte(0x10 + i)}
 	}
 	mss := int(clients[0].sess.kcp.mss)
-	res.dist["cipher-"+ciph.name]++
-	res.dist[fmt.Sprintf("fec-%d/%d", cfg.D, cfg.P)]++
-	res.dist["mtu-"+frameMtuNames[cfg.MtuKind]]++
-	res.dist[fmt.Sprintf("pattern-%d", cfg.Pattern)]++
-	res.dist[fmt.Sprintf("oobmode-%d", cfg.OOBMode)]++
+	res.Dist["cipher-"+ciph.name]++
+	res.Dist[fmt.Sprintf("fec-%d/%d", cfg.D, cfg.P)]++
+	res.Dist["mtu-"+frameMtuNames[cfg.MtuKind]]++
+	res.Dist[fmt.Sprintf("pattern-%d", cfg.Pattern)]++
+	res.Dist[fmt.Sprintf("oobmode-%d", cfg.OOBMode)]++
 
 	// sessions without FEC refuse OOB altogether
 	if !fecOn {
 		s := clients[0].sess
-		res.monitors["oob-limit"] += 3
+		res.Monitors["oob-limit"] += 3
 		if s.GetOOBMaxSize() != 0 {
 			res.violate("oob-limit", fmt.Sprintf("GetOOBMaxSize() = %d on a session without FEC", s.GetOOBMaxSize()), nil)
 		}
-		if s.SendOOB([]byte{1}) == nil || s.SendOOB(nil) == nil {
+		var e1, e2 error
+		if pn := frameSafe(func() { e1, e2 = s.SendOOB([]byte{1}), s.SendOOB(nil) }); pn != "" {
+			res.violate("oob-limit", "SendOOB panicked on a session without FEC: "+pn, nil)
+		} else if e1 == nil || e2 == nil {
 			res.violate("oob-limit", "SendOOB returned nil on a session without FEC", nil)
 		}
 		if s.SetOOBHandler(func([]byte) {}) == nil {
@@ -747,8 +963,13 @@ func frameRunScenario(cfg frameCfg) *frameResult {
 
 	// first chunk of every client, then accept
 	for _, c := range clients {
-		if _, err := c.sess.Write(c.written[:c.chunks[0]]); err != nil {
-			res.err = "first write: " + err.Error()
+		var err error
+		if pn := frameSafe(func() { _, err = c.sess.Write(c.written[:c.chunks[0]]) }); pn != "" {
+			res.violate("session-panic:Write", fmt.Sprintf("%s: Write(%d bytes) panicked: %s", c.name, c.chunks[0], pn), nil)
+			return res
+		}
+		if err != nil {
+			res.Err = "first write: " + err.Error()
 			return res
 		}
 	}
@@ -757,7 +978,7 @@ func frameRunScenario(cfg frameCfg) *frameResult {
 	for range clients {
 		s, err := l.AcceptKCP()
 		if err != nil {
-			res.err = "accept: " + err.Error()
+			res.Err = "accept: " + err.Error()
 			return res
 		}
 		byAddr[s.RemoteAddr().String()] = s
@@ -765,17 +986,17 @@ func frameRunScenario(cfg frameCfg) *frameResult {
 	for i := range clients {
 		s := byAddr[fmt.Sprintf("cli%d", i)]
 		if s == nil {
-			res.err = "accepted session for an unknown address"
+			res.Err = "accepted session for an unknown address"
 			return res
 		}
 		defer s.Close()
-		if !s.SetMtu(mtu) {
-			res.err = fmt.Sprintf("server SetMtu(%d) refused", mtu)
+		sv := &frameSide{name: fmt.Sprintf("srv%d", i), sess: s, tag: byte(0x80 + i), hub: hub, res: res, resMu: &resMu}
+		if !sv.setMtu(mtu) {
+			res.Err = fmt.Sprintf("server SetMtu(%d) refused", mtu)
 			return res
 		}
 		s.SetNoDelay(1, 10, 2, 1)
 		s.SetWindowSize(256, rcvWnd)
-		sv := &frameSide{name: fmt.Sprintf("srv%d", i), sess: s, tag: byte(0x80 + i)}
 		sv.chunks = frameChunks(rng, (cfg.Pattern+1+i)%4, mss, cfg.MaxBytes)
 		n := 0
 		for _, k := range sv.chunks {
@@ -790,7 +1011,7 @@ func frameRunScenario(cfg frameCfg) *frameResult {
 		}
 		servers[i] = sv
 		if s.GetConv() != convs[i] {
-			res.err = "accepted session has another conv"
+			res.Err = "accepted session has another conv"
 			return res
 		}
 	}
@@ -809,11 +1030,11 @@ func frameRunScenario(cfg frameCfg) *frameResult {
 		wg.Add(2)
 		go func() { // the client's first chunk is already written
 			defer wg.Done()
-			c.run(rc, oob, cfg.Flood, res, &resMu, c.chunks[1:], c.written[c.chunks[0]:])
+			c.run(rc, oob, cfg.Flood, cfg.MtuOps, res, &resMu, c.chunks[1:], c.written[c.chunks[0]:])
 		}()
 		go func() {
 			defer wg.Done()
-			sv.run(rs, oob, cfg.Flood, res, &resMu, sv.chunks, sv.written)
+			sv.run(rs, oob, cfg.Flood, cfg.MtuOps, res, &resMu, sv.chunks, sv.written)
 		}()
 		d1, d2 := make(chan struct{}), make(chan struct{})
 		dones = append(dones, d1, d2)
@@ -829,22 +1050,22 @@ func frameRunScenario(cfg frameCfg) *frameResult {
 	hub.mu.Lock()
 	hub.frozen = true
 	caps := hub.caps
-	res.dist["net-dropped"] += hub.dropped
-	res.dist["net-duplicated"] += hub.duped
+	res.Dist["net-dropped"] += hub.dropped
+	res.Dist["net-duplicated"] += hub.duped
 	hub.mu.Unlock()
-	res.datagrams = len(caps)
+	res.Datagrams = len(caps)
 
 	// ---- the application-level stream, both directions
 	for i := range clients {
 		for _, pr := range [][2]*frameSide{{clients[i], servers[i]}, {servers[i], clients[i]}} {
 			w, r := pr[0], pr[1]
 			if w.writeErr != nil {
-				res.err = fmt.Sprintf("%s: write error %v", w.name, w.writeErr)
+				res.Err = fmt.Sprintf("%s: write error %v", w.name, w.writeErr)
 			}
 			r.mu.Lock()
 			got := append([]byte(nil), r.read...)
 			r.mu.Unlock()
-			res.monitors["stream-content"]++
+			res.Monitors["stream-content"]++
 			if !bytes.HasPrefix(w.written, got) {
 				key := "stream-corrupted"
 				if oob {
@@ -887,8 +1108,8 @@ func frameRunScenario(cfg frameCfg) *frameResult {
 					res.violate("oob-misrouted", rcv.name+" has no handler registered but a callback was invoked", nil)
 				}
 				for _, g := range got {
-					res.monitors["oob-intact"]++
-					res.oobRecv++
+					res.Monitors["oob-intact"]++
+					res.OOBRecv++
 					if sent[string(g)] {
 						continue
 					}
@@ -933,6 +1154,9 @@ type frameDirState struct {
 	fecBad  bool
 	segs    map[uint32][]byte
 	log     frameDirLog
+	bound   int             // the MTU every datagram must honour right now
+	pending []frameMtuEvent // accepted SetMtu calls whose marker has not passed yet
+	events  []frameMtuEvent
 }
 
 func frameAnalyse(res *frameResult, ciph frameCipher, key []byte, cfg frameCfg, mtu int, caps []frameCapture,
@@ -960,7 +1184,16 @@ func frameAnalyse(res *frameResult, ciph frameCipher, key []byte, cfg frameCfg, 
 			for _, p := range snd.oobSent {
 				d.oobSent[string(p)] = true
 			}
-			d.log.header = fmt.Sprintf("C %d.%s cipher=%d ns=%d fec=%d d=%d p=%d", cfg.ID, snd.name, ciph.class, ciph.ns, frameB2I(fecOn), cfg.D, cfg.P)
+			d.bound = IKCP_MTU_DEF // newUDPSession sets the default
+			snd.mu.Lock()
+			d.events = append([]frameMtuEvent(nil), snd.events...)
+			snd.mu.Unlock()
+			for _, ev := range d.events {
+				if ev.Accepted {
+					d.pending = append(d.pending, ev)
+				}
+			}
+			d.log.Header = fmt.Sprintf("C %d.%s cipher=%d ns=%d fec=%d d=%d p=%d", cfg.ID, snd.name, ciph.class, ciph.ns, frameB2I(fecOn), cfg.D, cfg.P)
 			dirs[from+">"+to] = d
 		}
 	}
@@ -980,31 +1213,73 @@ func frameAnalyse(res *frameResult, ciph frameCipher, key []byte, cfg frameCfg, 
 		detail := func() map[string]any { return map[string]any{"index": ci, "from": c.from, "to": c.to, "datagram": hx(c.data)} }
 		// (4) no two datagrams of a run with a cipher are identical
 		if ciph.class != frameClassNil {
-			res.monitors["datagram-distinct"]++
+			res.Monitors["datagram-distinct"]++
 			if j, dup := seen[string(c.data)]; dup {
 				res.violate("frame-duplicate-datagram", fmt.Sprintf("datagram %d is byte-identical to datagram %d of the same run (cipher %s)", ci, j, ciph.name), detail())
 			}
 			seen[string(c.data)] = ci
 		}
+		// session half of C10: every datagram handed to the PacketConn, parity and OOB included
+		res.Monitors["session-datagram-size"]++
+		if len(c.data) == 0 {
+			res.violate("session-datagram-empty", fmt.Sprintf("%s handed an empty datagram to the PacketConn (datagram %d)", d.name, ci), detail())
+			continue
+		}
 		// (1) the independent decoder
-		res.monitors["frame-layout"]++
+		res.Monitors["frame-layout"]++
 		fi, e := frameDecode(ciph, key, fecOn, c.data)
+		{
+			kind := "undecodable"
+			if e == "" {
+				kind = fi.kind
+				for _, sg := range fi.segs { // a marker: everything behind it was built after that SetMtu returned
+					if sg.cmd == IKCP_CMD_WINS && sg.ts&0xffff0000 == frameMarkerTS {
+						ep := int(sg.ts & 0xffff)
+						var keep []frameMtuEvent
+						for _, ev := range d.pending {
+							if ev.Epoch&0xffff == ep {
+								d.bound = ev.Bound
+							}
+							if ev.Epoch > ep {
+								keep = append(keep, ev)
+							}
+						}
+						d.pending = keep
+						res.Dist["mtu-marker"]++
+					}
+				}
+			}
+			allowed := d.bound
+			for _, ev := range d.pending {
+				if ev.CapIndex <= ci && ev.Bound > allowed {
+					allowed = ev.Bound
+				}
+			}
+			if len(c.data) > allowed {
+				key := "session-datagram-over-mtu"
+				res.violate(key, fmt.Sprintf("%s handed a %s datagram of %d bytes to the PacketConn while its configured MTU is %d (cipher %s, FEC %d/%d)", d.name, kind, len(c.data), allowed, ciph.name, cfg.D, cfg.P),
+					map[string]any{"index": ci, "len": len(c.data), "mtu": allowed, "kind": kind, "setmtu_calls": d.events})
+			}
+			if len(c.data) == allowed {
+				res.Dist["datagram-exactly-mtu"]++
+			}
+		}
 		if e != "" {
 			res.violate("frame-layout", fmt.Sprintf("datagram %d of %s does not follow the documented layout: %s", ci, d.name, e), detail())
 			continue
 		}
 		if ciph.class != frameClassNil {
-			res.monitors["nonce-fresh"]++
+			res.Monitors["nonce-fresh"]++
 			n := string(fi.plain[:ciph.ns])
 			if j, dup := nonces[n]; dup {
 				res.violate("frame-nonce-reuse", fmt.Sprintf("datagram %d reuses the nonce of datagram %d", ci, j), detail())
 			}
 			nonces[n] = ci
 		}
-		res.dist["pkt-"+fi.kind]++
+		res.Dist["pkt-"+fi.kind]++
 		// (2) for the extracted model
-		if len(d.log.lines) < logCap {
-			d.log.lines = append(d.log.lines, "D "+hx(fi.plain)+" "+fi.summary())
+		if len(d.log.Lines) < logCap {
+			d.log.Lines = append(d.log.Lines, "D "+hx(fi.plain)+" "+fi.summary())
 		}
 		switch fi.kind {
 		case "data":
@@ -1015,10 +1290,10 @@ func frameAnalyse(res *frameResult, ciph frameCipher, key []byte, cfg frameCfg, 
 				if s.cmd < 81 || s.cmd > 84 {
 					res.violate("frame-layout", fmt.Sprintf("segment with cmd %d", s.cmd), detail())
 				}
-				res.dist[fmt.Sprintf("seg-cmd-%d", s.cmd)]++
+				res.Dist[fmt.Sprintf("seg-cmd-%d", s.cmd)]++
 				if s.cmd == 81 {
 					if old, ok := d.segs[s.sn]; ok {
-						res.retrans++
+						res.Retrans++
 						if !bytes.Equal(old, s.data) {
 							res.violate("frame-layout", fmt.Sprintf("retransmission of sn %d carries different bytes", s.sn), detail())
 						}
@@ -1028,7 +1303,7 @@ func frameAnalyse(res *frameResult, ciph frameCipher, key []byte, cfg frameCfg, 
 				}
 			}
 		case "oob":
-			res.monitors["oob-wire"]++
+			res.Monitors["oob-wire"]++
 			if fi.seqid != 0xffffffff {
 				res.violate("fec-id-cycle", fmt.Sprintf("OOB packet with seqid %d instead of 0xffffffff", fi.seqid), detail())
 			}
@@ -1038,13 +1313,10 @@ func frameAnalyse(res *frameResult, ciph frameCipher, key []byte, cfg frameCfg, 
 			if !d.oobSent[string(fi.payload)] {
 				res.violate("oob-corrupted", fmt.Sprintf("OOB packet on the wire of %s carries %d bytes the application never sent", d.name, len(fi.payload)), detail())
 			}
-			if len(c.data) > mtu {
-				res.violate("oob-limit", fmt.Sprintf("OOB datagram of %d bytes exceeds the MTU %d", len(c.data), mtu), detail())
-			}
 		}
 		// (3) id/type cycle, (5) parity
 		if fecOn && !d.fecBad && fi.kind != "oob" {
-			res.monitors["fec-id-cycle"]++
+			res.Monitors["fec-id-cycle"]++
 			bad := func(what string) {
 				d.fecBad = true
 				res.violate("fec-id-cycle", fmt.Sprintf("%s, datagram %d: %s (slot %d, d/p %d/%d)", d.name, ci, what, d.K, cfg.D, cfg.P), detail())
@@ -1085,9 +1357,9 @@ func frameAnalyse(res *frameResult, ciph frameCipher, key []byte, cfg frameCfg, 
 				}
 				d.pgot = append(d.pgot, append([]byte(nil), fi.payload...))
 				d.K++
-				res.parity++
+				res.Parity++
 				if len(d.pgot) == cfg.P {
-					res.monitors["parity-is-rs"]++
+					res.Monitors["parity-is-rs"]++
 					if what := frameCheckParity(codec, cfg.D, cfg.P, d.group, d.pgot); what != "" {
 						res.violate("parity-not-rs", fmt.Sprintf("%s, group ending at datagram %d: %s", d.name, ci, what), detail())
 					}
@@ -1112,17 +1384,17 @@ func frameAnalyse(res *frameResult, ciph frameCipher, key []byte, cfg frameCfg, 
 			}
 			wire = append(wire, b...)
 		}
-		res.monitors["wire-reassembly"]++
+		res.Monitors["wire-reassembly"]++
 		if !bytes.HasPrefix(d.written, wire) {
 			res.violate("frame-layout", fmt.Sprintf("the byte stream reassembled from %s's datagrams is not a prefix of what the application wrote (first difference at %d)", d.name, frameFirstDiff(d.written, wire)),
 				map[string]any{"written": hx(d.written), "wire": hx(wire)})
 		} else if len(wire) < d.peerGot {
 			res.violate("frame-layout", fmt.Sprintf("the peer of %s read %d bytes but only %d can be reassembled from the wire", d.name, d.peerGot, len(wire)), nil)
 		}
-		res.logs = append(res.logs, d.log)
+		res.Logs = append(res.Logs, d.log)
 	}
-	if len(caps) > 0 && res.sample == "" {
-		res.sample = fmt.Sprintf("%s: %d datagrams, first %s", cfg.String(), len(caps), hx(caps[0].data))
+	if len(caps) > 0 && res.Sample == "" {
+		res.Sample = fmt.Sprintf("%s: %d datagrams, first %s", cfg.String(), len(caps), hx(caps[0].data))
 	}
 }
 
@@ -1332,6 +1604,7 @@ func frameScenarios(rng *vrng, prop string) []frameCfg {
 					if rng.chance(15) {
 						c.Clients = 3
 					}
+					c.MtuOps = prop == "C10sess" && rng.chance(75)
 					add(c)
 				}
 			}
@@ -1339,7 +1612,7 @@ func frameScenarios(rng *vrng, prop string) []frameCfg {
 		for i := 0; i < 40; i++ { // extra random cells, all patterns
 			l, d := lossOf()
 			f := frameFecs[rng.intn(len(frameFecs))]
-			add(frameCfg{Cipher: rng.intn(nc), D: f[0], P: f[1], MtuKind: rng.intn(4), Pattern: i % 4, OOBMode: 1 + rng.intn(3), LossPct: l, DupPct: d, Clients: 1 + 2*(i%2), Slow: i%5 == 0, Flood: prop == "C19" && i%5 == 2})
+			add(frameCfg{Cipher: rng.intn(nc), D: f[0], P: f[1], MtuKind: rng.intn(4), Pattern: i % 4, OOBMode: 1 + rng.intn(3), LossPct: l, DupPct: d, Clients: 1 + 2*(i%2), Slow: i%5 == 0, Flood: prop == "C19" && i%5 == 2, MtuOps: prop == "C10sess"})
 		}
 		return out
 	}
@@ -1367,9 +1640,102 @@ func frameScenarios(rng *vrng, prop string) []frameCfg {
 		}
 		c.Slow = i%15 == 7
 		c.Flood = prop == "C19" && i%12 == 3
+		if prop == "C10sess" {
+			c.MtuOps = i%4 != 3
+			if c.OOBMode == 0 && i%3 != 0 {
+				c.OOBMode = 1
+			}
+		}
 		add(c)
 	}
 	return out
+}
+
+// frameSpawn runs one scenario in a child process (the test binary re-executed): a panic inside a
+// library goroutine (postProcess, the scheduler, the read loops) cannot be recovered and would
+// take every other scenario down with it; this way it becomes a violation of that scenario.
+func frameSpawn(t *testing.T, cfg frameCfg) *frameResult {
+	dir := filepath.Join(vOutDir(t), "frame-child")
+	os.MkdirAll(dir, 0o755)
+	out := filepath.Join(dir, fmt.Sprintf("s%d-%d.json", cfg.ID, os.Getpid()))
+	os.Remove(out)
+	cj, _ := json.Marshal(cfg)
+	cmd := exec.Command(os.Args[0], "-test.run=^TestVerifFrameChild$", "-test.count=1", "-test.timeout=150s")
+	cmd.Env = append(os.Environ(), "FRAME_CHILD_CFG="+string(cj), "FRAME_CHILD_OUT="+out)
+	output, runErr := cmd.CombinedOutput()
+	defer os.Remove(out)
+	if b, err := os.ReadFile(out); err == nil {
+		r := &frameResult{}
+		if json.Unmarshal(b, r) == nil && r.Dist != nil {
+			return r
+		}
+	}
+	r := &frameResult{Cfg: cfg, Dist: map[string]int{}, Monitors: map[string]int{}}
+	txt := string(output)
+	if i := strings.Index(txt, "panic: "); i >= 0 || strings.Contains(txt, "fatal error: ") {
+		if i < 0 {
+			i = strings.Index(txt, "fatal error: ")
+		}
+		msg := txt[i:]
+		if j := strings.Index(msg, "\n"); j > 0 {
+			msg = msg[:j]
+		}
+		where := framePanicSite(txt[i:])
+		tail := txt[i:]
+		if len(tail) > 3000 {
+			tail = tail[:3000]
+		}
+		r.violate("session-panic:"+where, fmt.Sprintf("the process died in %s: %s", where, msg), map[string]any{"trace": tail})
+		return r
+	}
+	if len(txt) > 2000 {
+		txt = txt[len(txt)-2000:]
+	}
+	r.Err = fmt.Sprintf("child process failed (%v) without a result: %s", runErr, txt)
+	return r
+}
+
+// framePanicSite names the library goroutine a fatal panic happened in
+func framePanicSite(trace string) string {
+	blk := trace
+	if j := strings.Index(blk, "\n\ngoroutine "); j >= 0 { // the panicking goroutine comes first
+		rest := blk[j+2:]
+		if k := strings.Index(rest, "\n\n"); k >= 0 {
+			rest = rest[:k]
+		}
+		blk = rest
+	}
+	for _, name := range []string{"postProcess", "update", "defaultReadLoop", "readLoop", "defaultMonitor", "monitor", "packetInput", "kcpInput"} {
+		if strings.Contains(blk, ")."+name+"(") || strings.Contains(blk, "."+name+"(") {
+			return name
+		}
+	}
+	return "goroutine"
+}
+
+// TestVerifFrameChild is the child side of frameSpawn; without its environment it does nothing.
+func TestVerifFrameChild(t *testing.T) {
+	cj, out := os.Getenv("FRAME_CHILD_CFG"), os.Getenv("FRAME_CHILD_OUT")
+	if cj == "" || out == "" {
+		t.Skip("only meaningful as a child of the frame harness")
+	}
+	var cfg frameCfg
+	if err := json.Unmarshal([]byte(cj), &cfg); err != nil {
+		t.Fatal(err)
+	}
+	r := frameRunScenario(cfg)
+	b, err := json.Marshal(r)
+	if err != nil {
+		t.Fatal(err)
+	}
+	if err := os.WriteFile(out+".tmp", b, 0o644); err != nil {
+		t.Fatal(err)
+	}
+	os.Rename(out+".tmp", out)
+}
+
+func frameWanted(keys map[string]bool, k string) bool {
+	return keys[k] || strings.HasPrefix(k, "session-panic:")
 }
 
 func frameRunAll(t *testing.T, prop string, keys map[string]bool) {
@@ -1387,6 +1753,9 @@ func frameRunAll(t *testing.T, prop string, keys map[string]bool) {
 	if vThorough() {
 		encCases = 200
 	}
+	if prop == "C10sess" {
+		encCases = 0
+	}
 	encSteps := 0
 	for i := 0; i < encCases; i++ {
 		f := frameFecs[1+rng.intn(len(frameFecs)-1)]
@@ -1403,10 +1772,10 @@ func frameRunAll(t *testing.T, prop string, keys map[string]bool) {
 			rep.Nontrivial++
 		}
 		for _, f := range fs {
-			if f.key == "harness" {
-				t.Errorf("encoder pair: %s", f.what)
-			} else if keys[f.key] {
-				rep.violate(f.key, f.what, f.replay)
+			if f.Key == "harness" {
+				t.Errorf("encoder pair: %s", f.What)
+			} else if frameWanted(keys, f.Key) {
+				rep.violate(f.Key, f.What, f.Replay)
 			}
 		}
 	}
@@ -1418,7 +1787,7 @@ func frameRunAll(t *testing.T, prop string, keys map[string]bool) {
 			cfg := cfgs[i]
 			t.Run(fmt.Sprintf("s%d", cfg.ID), func(t *testing.T) {
 				t.Parallel()
-				r := frameRunScenario(cfg)
+				r := frameSpawn(t, cfg)
 				mu.Lock()
 				results[cfg.ID] = r
 				mu.Unlock()
@@ -1433,36 +1802,37 @@ func frameRunAll(t *testing.T, prop string, keys map[string]bool) {
 			continue
 		}
 		rep.Cases++
-		rep.Steps += r.datagrams
-		if r.err != "" {
+		rep.Steps += r.Datagrams
+		if r.Err != "" {
 			incomplete++
-			t.Errorf("scenario %s: harness failure: %s", r.cfg.String(), r.err)
+			t.Errorf("scenario %s: harness failure: %s", r.Cfg.String(), r.Err)
 		}
-		if r.retrans > 0 {
+		if (prop != "C10sess" && r.Retrans > 0) || (prop == "C10sess" && r.Cfg.MtuOps && r.MtuAccepted > 2*r.Cfg.Clients+1) {
 			rep.Nontrivial++
 		}
-		for k, v := range r.dist {
+		for k, v := range r.Dist {
 			rep.Distribution[k] += v
 		}
-		for k, v := range r.monitors {
+		for k, v := range r.Monitors {
 			rep.Monitors[k] += v
 		}
-		rep.Distribution["retransmitted-segments"] += r.retrans
-		rep.Distribution["parity-packets"] += r.parity
-		rep.Distribution["oob-delivered"] += r.oobRecv
-		for _, f := range r.findings {
-			if keys[f.key] {
-				rep.violate(f.key, f.what, f.replay)
+		rep.Distribution["retransmitted-segments"] += r.Retrans
+		rep.Distribution["parity-packets"] += r.Parity
+		rep.Distribution["oob-delivered"] += r.OOBRecv
+		rep.Distribution["setmtu-accepted-calls"] += r.MtuAccepted
+		for _, f := range r.Findings {
+			if frameWanted(keys, f.Key) {
+				rep.violate(f.Key, f.What, f.Replay)
 			} else {
-				rep.Distribution["other-property-finding-"+f.key]++
+				rep.Distribution["other-property-finding-"+f.Key]++
 			}
 		}
-		if r.sample != "" {
-			rep.sample(r.sample)
+		if r.Sample != "" {
+			rep.sample(r.Sample)
 		}
-		for _, dl := range r.logs {
-			lg.printf("%s\n", dl.header)
-			for _, ln := range dl.lines {
+		for _, dl := range r.Logs {
+			lg.printf("%s\n", dl.Header)
+			for _, ln := range dl.Lines {
 				lg.printf("%s\n", ln)
 			}
 			lg.printf("E\n")
@@ -1471,6 +1841,9 @@ func frameRunAll(t *testing.T, prop string, keys map[string]bool) {
 	rep.Extra["scenarios"] = len(cfgs)
 	rep.Extra["encoder_pairs"] = encCases
 	rep.Extra["nontrivial_rule"] = "a session scenario with at least one retransmitted segment on the wire, or an encoder-pair case that emitted parity"
+	if prop == "C10sess" {
+		rep.Extra["nontrivial_rule"] = "a session scenario in which SetMtu was accepted during traffic (beyond the initial configuration of each session)"
+	}
 	rep.write(t, prop+".report.json")
 }
 
@@ -1478,6 +1851,16 @@ func TestVerifC09(t *testing.T) {
 	frameRunAll(t, "C09", map[string]bool{
 		"frame-layout": true, "frame-duplicate-datagram": true, "frame-nonce-reuse": true,
 		"fec-id-cycle": true, "parity-not-rs": true, "stream-stalled": true, "stream-corrupted": true,
+	})
+}
+
+// TestVerifC10Sess: the session half of C10 - the size of every datagram handed to the
+// PacketConn (cipher, FEC and AEAD overhead counted; parity and OOB included) and
+// UDPSession.SetMtu at random points of the traffic.
+func TestVerifC10Sess(t *testing.T) {
+	frameRunAll(t, "C10sess", map[string]bool{
+		"session-datagram-over-mtu": true, "session-datagram-empty": true, "session-setmtu-rule": true,
+		"stream-stalled": true, "stream-corrupted": true, "oob-disturbs-stream": true,
 	})
 }
 
